@@ -632,3 +632,151 @@ class trim_line:
     def requires(a):
         # (lines holding inserted-text segments are not covered: see LayoutSegment.subseg)
         return both(line_wf(a.segs, a.text), 0 <= a.start, a.start <= a.end)
+
+
+# ---- calc_coords: the cell of a text position
+
+def seg3_offs(e):
+    return seg_sel(e, lambda t: t[1])
+
+
+def seg3_end(e):
+    return seg_sel(e, lambda t: t[2] if len(t) == 3 and V.is_num(t[2]) else 0)
+
+
+def seg_has_offs(e):
+    return neg(_isnone_f(seg3_offs(e)))
+
+
+def seg_valid(e, text):
+    """What LayoutSegment accepts, and a run lies within the text."""
+    def ok(t):
+        if len(t) == 2:
+            return either(_isnone_f(t[1]), t[0] >= 0)
+        if V.is_num(t[2]):
+            return both(t[0] > 0, 0 <= t[1], t[1] <= t[2], t[2] <= tlen(text))
+        return t[0] > 0
+    return seg_sel(e, ok)
+
+
+def layout_valid(layout, text):
+    return forall(0, Q.seq_len(layout), lambda y: forall(0, n_segs(_row(layout, y)), lambda j: seg_valid(seg_at(_row(layout, y), j), text), check_empty=False), check_empty=False)
+
+
+def seg_holds(e, pos):
+    """The segment stands for text position pos: its offset is pos, or it is a run offs <= pos < end."""
+    o = val(seg3_offs(e))
+    return both(seg_has_offs(e), either(o == pos, both(seg_is_run(e), o <= pos, pos < seg3_end(e))))
+
+
+def seg_dist(e, pos):
+    """How far a segment that does not hold pos is from it: from its last character if it is a run ending before
+    pos, else from its offset."""
+    o = val(seg3_offs(e))
+    end = seg3_end(e)
+    return ite(both(seg_is_run(e), end < pos), pos - (end - 1), iabs(o - pos))
+
+
+def _before(y1, j1, y2, j2):
+    return either(y1 < y2, both(y1 == y2, j1 < j2))
+
+
+def _cell_in(layout, ry, rj):
+    return both(0 <= ry, ry < Q.seq_len(layout), 0 <= rj, rj < n_segs(_row(layout, ry)))
+
+
+def _closest_facts(layout, text, pos, closest, yy, k):
+    """closest is None while no visited segment has an offset; else (d, (x, y)): d is the least distance of the visited
+    segments with an offset, attained by one that starts at cell (x, y).  Visited: before (yy, k) in reading order."""
+    ry, rj = V.arbitrary("ry"), V.arbitrary("rj")
+    e = seg_at(_row(layout, ry), rj)
+    vis = both(_cell_in(layout, ry, rj), _before(ry, rj, yy, k))
+    isn = _isnone_f(closest)
+    yield "no-closest-while-no-offset-seen", implies(both(isn, vis), neg(seg_has_offs(e)))
+    if closest is None:
+        return
+    d, (cx, cy) = val(closest)
+    yield "closest-distance-is-minimal", implies(both(neg(isn), vis, seg_has_offs(e)), seg_dist(e, pos) >= d)
+    yield "closest-distance-is-attained-at-its-cell", implies(neg(isn), exists(0, yy + 1, lambda y1: exists(0, n_segs(_row(layout, y1)), lambda j1: both(
+        _before(y1, j1, yy, k), seg_has_offs(seg_at(_row(layout, y1), j1)), seg_dist(seg_at(_row(layout, y1), j1), pos) == d,
+        cx == colsum(_row(layout, y1), j1), cy == y1))))
+
+
+def _cc_common(v, yy, k):
+    layout, pos = v.layout, v.pos
+    ry, rj = V.arbitrary("ry"), V.arbitrary("rj")
+    e = seg_at(_row(layout, ry), rj)
+    vis = both(_cell_in(layout, ry, rj), _before(ry, rj, yy, k))
+    yield "no-segment-so-far-holds-pos", implies(vis, neg(seg_holds(e, pos)))
+    yield from _closest_facts(layout, v.text, pos, v.closest, yy, k)
+
+
+def _cc_outer(v):
+    yield "y-is-the-row", v.y == v.i_
+    yield from _cc_common(v, v.i_, 0)
+
+
+def _cc_inner(v):
+    row = v.line_layout
+    yield "row-in-hand", both(0 <= v.y, v.y < Q.seq_len(v.layout), n_segs(row) == n_segs(_row(v.layout, v.y)))
+    yield "x-is-the-column-where-the-next-segment-starts", v.x == colsum(_row(v.layout, v.y), v.i_)
+    yield from _cc_common(v, v.y, v.i_)
+
+
+CLOSEST = Opt(Tup(Int, Tup(Int, Int)))
+
+
+def _cc_ens(a, result, callee=False):
+    layout, pos, t = a.layout, a.pos, a.text
+    rx, ry_ = result
+    n = Q.seq_len(layout)
+    ry, rj = V.arbitrary("ry"), V.arbitrary("rj")
+    e = seg_at(_row(layout, ry), rj)
+    inr = _cell_in(layout, ry, rj)
+
+    def first_holder(y1, j1):
+        e1 = seg_at(_row(layout, y1), j1)
+        return both(_cell_in(layout, y1, j1), seg_holds(e1, pos),
+                    forall(0, y1 + 1, lambda y2: forall(0, n_segs(_row(layout, y2)), lambda j2: implies(_before(y2, j2, y1, j1), neg(seg_holds(seg_at(_row(layout, y2), j2), pos))), check_empty=False), check_empty=False))
+
+    def cell_of(y1, j1):
+        e1 = seg_at(_row(layout, y1), j1)
+        o = val(seg3_offs(e1))
+        return both(rx == colsum(_row(layout, y1), j1) + ite(o == pos, 0, W(t, pos) - W(t, o)), ry_ == y1)
+
+    none_holds = forall(0, n, lambda y1: forall(0, n_segs(_row(layout, y1)), lambda j1: neg(seg_holds(seg_at(_row(layout, y1), j1), pos)), check_empty=False), check_empty=False)
+    none_offs = forall(0, n, lambda y1: forall(0, n_segs(_row(layout, y1)), lambda j1: neg(seg_has_offs(seg_at(_row(layout, y1), j1))), check_empty=False), check_empty=False)
+    if callee:
+        yield "cell-of-the-character-at-pos-in-the-first-segment-that-holds-it", forall(0, n, lambda y1: forall(0, n_segs(_row(layout, y1)), lambda j1: implies(first_holder(y1, j1), cell_of(y1, j1)), check_empty=False), check_empty=False)
+        d = cur().fresh_int("closest_d")
+    else:
+        yield "cell-of-the-character-at-pos-in-the-first-segment-that-holds-it", implies(first_holder(ry, rj), cell_of(ry, rj))
+        cl = cur().ghost.get("exit_locals", {}).get("closest")
+        d = None if cl is None or bool(_isnone_f(cl)) else val(cl)[0]
+    yield "origin-when-no-segment-has-an-offset", implies(none_offs, both(rx == 0, ry_ == 0))
+    if d is None:
+        # the function met no segment with an offset (closest is still None): then there is none at all -- for an
+        # arbitrary cell (universal generalisation) -- and the clause below has nothing to say
+        yield "else-start-of-a-closest-segment", implies(both(inr, none_holds), neg(seg_has_offs(e)))
+        return
+    attained = exists(0, n, lambda y1: exists(0, n_segs(_row(layout, y1)), lambda j1: both(
+        seg_has_offs(seg_at(_row(layout, y1), j1)), seg_dist(seg_at(_row(layout, y1), j1), pos) == d, rx == colsum(_row(layout, y1), j1), ry_ == y1)))
+    if callee:
+        minimal = forall(0, n, lambda y1: forall(0, n_segs(_row(layout, y1)), lambda j1: implies(seg_has_offs(seg_at(_row(layout, y1), j1)), seg_dist(seg_at(_row(layout, y1), j1), pos) >= d), check_empty=False), check_empty=False)
+    else:
+        minimal = implies(both(inr, seg_has_offs(e)), seg_dist(e, pos) >= d)
+    yield "else-start-of-a-closest-segment", implies(both(none_holds, neg(none_offs)), both(attained, minimal))
+
+
+@contract(TL + "calc_coords", property=("C03", "C10"), replayable=False)
+class calc_coords:
+    params = dict(text=TEXT, layout=LAYOUT, pos=Int, clamp=Int)
+    result = Tup(Int, Int)
+    raises = ()
+    ensures = staticmethod(_cc_ens)
+    ensures_callee = staticmethod(lambda a, result: _cc_ens(a, result, True))
+    loops = {0: Loop(invariant=_cc_outer, shapes={"closest": CLOSEST}), 1: Loop(invariant=_cc_inner, shapes={"closest": CLOSEST})}
+    qf_branching = True   # solver strategy only: branch feasibility on the quantifier-free part of the path condition
+
+    def requires(a):
+        return both(layout_valid(a.layout, a.text), 0 <= a.pos, a.pos <= tlen(a.text))
